@@ -1347,9 +1347,97 @@ func storeKeyOf(fc *FuncCtx, v ssa.Value, depth int) (string, string) {
 			if pf, ok := constStr(x.X); ok {
 				return pf + "%s", fc.AP(x.Y)
 			}
+			// the prefix read from a constant package-level table by a constant index (storePrefix[kindUser] + name)
+			if pf, ok := constTableString(fc, x.X); ok {
+				return pf + "%s", fc.AP(x.Y)
+			}
 		}
 	}
 	return "?", fc.AP(v)
+}
+
+// constTableString: v reads a package-level array of strings, written only by its initialiser, at an index that is a
+// constant here (directly, or as the argument bound to a parameter of a helper analysed as part of its caller).
+func constTableString(fc *FuncCtx, v ssa.Value) (string, bool) {
+	ld, ok := v.(*ssa.UnOp)
+	if !ok || ld.Op != token.MUL {
+		return "", false
+	}
+	ia, ok := ld.X.(*ssa.IndexAddr)
+	if !ok {
+		return "", false
+	}
+	g, ok := ia.X.(*ssa.Global)
+	if !ok || g.Pkg == nil {
+		return "", false
+	}
+	k, ok := constIndexIn(fc, ia.Index, 0)
+	if !ok {
+		return "", false
+	}
+	p := fc.A.P
+	for _, fn := range p.modFns {
+		if fn.Name() == "init" && fn.Pkg == g.Pkg {
+			continue
+		}
+		for _, b := range fn.Blocks {
+			for _, in := range b.Instrs {
+				if st, ok := in.(*ssa.Store); ok && rootOfAddr(st.Addr) == ssa.Value(g) {
+					return "", false
+				}
+			}
+		}
+	}
+	init := g.Pkg.Func("init")
+	if init == nil {
+		return "", false
+	}
+	val, n := "", 0
+	for _, b := range init.Blocks {
+		for _, in := range b.Instrs {
+			st, ok := in.(*ssa.Store)
+			if !ok {
+				continue
+			}
+			sa, ok := st.Addr.(*ssa.IndexAddr)
+			if !ok || sa.X != ssa.Value(g) {
+				continue
+			}
+			if sk, ok := constInt(sa.Index); ok && sk == k {
+				if s, ok := constStr(st.Val); ok {
+					val = s
+					n++
+				}
+			}
+		}
+	}
+	return val, n == 1
+}
+
+func constIndexIn(fc *FuncCtx, v ssa.Value, depth int) (int64, bool) {
+	if depth > 4 {
+		return 0, false
+	}
+	for {
+		if cv, ok := v.(*ssa.Convert); ok {
+			v = cv.X
+			continue
+		}
+		if ct, ok := v.(*ssa.ChangeType); ok {
+			v = ct.X
+			continue
+		}
+		break
+	}
+	if k, ok := constInt(v); ok {
+		return k, true
+	}
+	if prm, ok := v.(*ssa.Parameter); ok && fc.parent != nil {
+		if av := fc.argVal[prm]; av != nil {
+			return constIndexIn(fc.parent, av, depth+1)
+		}
+	}
+	return 0, false
 }
 
 func checkStoreErrors(r *Report, p *Prog) {
@@ -1368,21 +1456,7 @@ func checkStoreErrors(r *Report, p *Prog) {
 					continue
 				}
 				ev := errResultValue(c)
-				tested := false
-				if ev != nil {
-					for _, rf := range *ev.Referrers() {
-						switch y := rf.(type) {
-						case *ssa.BinOp:
-							tested = true
-						case *ssa.Return:
-							tested = true
-						case *ssa.Phi, *ssa.Store:
-							tested = true
-						case *ssa.Call:
-							_ = y
-						}
-					}
-				}
+				tested := ev != nil && errTested(p, ev, 0)
 				a := NewAnalysis(p)
 				key := ""
 				if len(c.Call.Args) > 0 {
@@ -1392,6 +1466,31 @@ func checkStoreErrors(r *Report, p *Prog) {
 			}
 		}
 	}
+}
+
+// errTested: the error value is compared, returned or kept, here or in a module function it is handed to (a classifier
+// such as classify(err) that compares it with nil and the sentinels).
+func errTested(p *Prog, v ssa.Value, depth int) bool {
+	if depth > 2 || v.Referrers() == nil {
+		return false
+	}
+	for _, rf := range *v.Referrers() {
+		switch y := rf.(type) {
+		case *ssa.BinOp, *ssa.Return, *ssa.Phi, *ssa.Store:
+			return true
+		case *ssa.Call:
+			sc := y.Call.StaticCallee()
+			if sc == nil || !p.InModule(sc) || len(sc.Blocks) == 0 {
+				continue
+			}
+			for i, a := range y.Call.Args {
+				if a == v && i < len(sc.Params) && errTested(p, sc.Params[i], depth+1) {
+					return true
+				}
+			}
+		}
+	}
+	return false
 }
 
 // checkStoreFailureReplies: on a path where some store call failed (other than with the distinguished
